@@ -68,16 +68,41 @@ func (in *Interp) mergeCall(caller *frame, callpos token.Pos, fn *ssa.Function, 
 	if len(results) == 0 {
 		return nil, false
 	}
-	acc := results[len(results)-1].v
-	for i := len(results) - 2; i >= 0; i-- {
-		m, ok := in.tryIteFresh(results[i].cond, results[i].v, acc)
-		if !ok {
-			return nil, false
+	// Partial merging: results that can be merged share one continuation;
+	// results that cannot (e.g. different pointers) become separate forks.
+	type cluster struct {
+		cond *smt.Term
+		v    value
+	}
+	var clusters []*cluster
+	for _, r := range results {
+		placed := false
+		for _, cl := range clusters {
+			if m, ok := in.tryIteFresh(r.cond, r.v, cl.v); ok {
+				cl.v = m
+				cl.cond = C.Or(cl.cond, r.cond)
+				placed = true
+				break
+			}
 		}
-		acc = m
+		if !placed {
+			if len(clusters) >= 64 {
+				return nil, false
+			}
+			clusters = append(clusters, &cluster{r.cond, r.v})
+		}
 	}
 	in.x.merged(len(results))
-	return acc, true
+	for i, cl := range clusters {
+		if i == len(clusters)-1 {
+			// the sub-path conditions are exhaustive under the path condition
+			return cl.v, true
+		}
+		if p.decide(cl.cond) {
+			return cl.v, true
+		}
+	}
+	return nil, false
 }
 
 func (x *Explorer) merged(n int) {
